@@ -19,7 +19,10 @@ RULE = (
     "after the loop if it is shorter) the container is not looked at while a history runs: the observation after i "
     "operations is taken from a fresh container that received the first i operations in this way, so loops in "
     "progress during a change, loops completed before it and the absence of any earlier observation are all part of "
-    "the history, and the expected observation stays the model's for the plain operation sequence. "
+    "the history, and the expected observation stays the model's for the plain operation sequence. An entry \"self\" "
+    "(remove operations only) makes the call when a for-loop over the container reaches the very member to be "
+    "removed, and consecutive entries \"self\" share ONE loop (`for x in c: if x is one of them: c.remove(x)`, the "
+    "filter idiom: several removals, each of the element being visited, while the loop runs on). "
     "non-trivial = history contains at least one operation; distinct by full case."
 )
 ASSUMPTIONS = [
@@ -187,6 +190,40 @@ def _apply_in_loop(c, el, op, t, cap):
         _apply(c, el, op)
 
 
+def _apply_filter_loop(c, el, group, cap):
+    """`for x in container: if x is one of the victims: container.remove(x)`: every removal of the group is made by
+    one loop over the container, each when the loop reaches the member concerned (removals of different members
+    commute, so the result is that of the plain sequence whatever the order the members stand in)"""
+    victims = [el(op[1]) for op in group]
+    n = 0
+    for x in c:
+        if any(x is v for v in victims):
+            c.remove(x)
+        n += 1
+        if n > cap:
+            break
+
+
+def _run_prefix(c, el, ops, loops, cap, at):
+    """ops made one after the other in the way `loops` says; at[0] is kept at the index of the operation in hand"""
+    j = 0
+    while j < len(ops):
+        at[0] = j
+        t = loops[j] if j < len(loops) else None
+        if t == "self" and ops[j][0] == "remove":
+            k = j
+            while k < len(ops) and k < len(loops) and loops[k] == "self" and ops[k][0] == "remove":
+                k += 1
+            _apply_filter_loop(c, el, ops[j:k], cap)
+            j = k
+            continue
+        if t is None or t == "self":
+            _apply(c, el, ops[j])
+        else:
+            _apply_in_loop(c, el, ops[j], t, cap)
+        j += 1
+
+
 def _fresh(case):
     ecls, ccls = classes()[case["family"]]
     vals = case["vals"]
@@ -213,16 +250,11 @@ def run_unobserved(case):
     obs, exc = [], None
     for i in range(len(ops) + 1):
         c, el, ident = _fresh(case)
-        j = 0
+        at = [0]
         try:
-            for j in range(i):
-                t = loops[j] if j < len(loops) else None
-                if t is None:
-                    _apply(c, el, ops[j])
-                else:
-                    _apply_in_loop(c, el, ops[j], t, 4 * fuel)
+            _run_prefix(c, el, ops[:i], loops, 4 * fuel, at)
         except Exception as e:
-            exc = {"step": j + 1, "exc": type(e).__name__, "msg": str(e)[:200]}
+            exc = {"step": at[0] + 1, "exc": type(e).__name__, "msg": str(e)[:200]}
             break
         obs.append(observe(c, ident, fuel))
     return {"obs": obs, "exc": exc}
@@ -269,7 +301,10 @@ def judge(case, obs, resp):
             if case.get("loops") is not None and f["step"] > 0:
                 lp = list(case["loops"])[: f["step"]]
                 how = " (fresh container, not looked at before; " + ", ".join(
-                    f"op #{j + 1} " + ("called plainly" if t is None else f"called inside a for-loop over the container at its element #{t}")
+                    f"op #{j + 1} " + ("called plainly" if t is None else
+                                       "called inside a for-loop over the container when it reaches the member to be removed"
+                                       + (" (same loop as the op before)" if j and lp[j - 1] == "self" else "") if t == "self" else
+                                       f"called inside a for-loop over the container at its element #{t}")
                     for j, t in enumerate(lp)) + ")"
             return {"status": "oracle", "why": f"after op #{f['step']}{how} the container differs from the list {f['spec_list']}"}
         return {"status": "corr", "why": f"model/implementation disagree after op #{f['step']}"}
@@ -293,6 +328,12 @@ def features(case, obs):
     if case.get("loops") is not None:
         f.append("unobserved_history")
         f += [f"in_loop_op={op[0]}" for op, t in zip(case["ops"], case["loops"]) if t is not None]
+        k = run = 0
+        for op, t in zip(case["ops"], case["loops"]):
+            run = run + 1 if (t == "self" and op[0] == "remove") else 0
+            k = max(k, run)
+        if k:
+            f.append(f"filter_loop_removals={min(k, 4)}")
     return f
 
 
@@ -441,6 +482,49 @@ def random_history(rng: random.Random, length, family):
     return {"family": family, "vals": vals, "ops": ops}
 
 
+def filter_loop_variant(case, rng: random.Random):
+    """a history that keeps a prefix of the case's operations (made plainly or from inside loops, as drawn here),
+    then drops a chosen subset of the members with ONE filter loop, then goes on with a few more operations"""
+    ops = [list(op) for op in case["ops"][: rng.randrange(0, 9)]]
+    l, removed, fresh = [0], set(), 1
+
+    def step(op):
+        nonlocal l, fresh
+        l = spec_apply(l, removed, op)
+        if op[0] == "remove":
+            removed.add(op[1])
+        else:
+            removed.discard(op[-1])
+            if op[-1] == fresh:
+                fresh += 1
+
+    for op in ops:
+        step(op)
+    while len(l) < 3:
+        op = [rng.choice(["append", "prepend"]), fresh]
+        ops.append(op)
+        step(op)
+    loops = [rng.randrange(0, 4) if rng.random() < 0.3 else None for _ in ops]
+    victims = [x for x in l if rng.random() < 0.5][: len(l) - 1] or [l[rng.randrange(len(l) - 1)]]
+    if rng.random() < 0.25:
+        rng.shuffle(victims)
+    for v in victims:
+        ops.append(["remove", v])
+        loops.append("self")
+        step(["remove", v])
+    for _ in range(rng.randrange(0, 3)):
+        op = rng.choice(admissible_ops(l, removed, fresh))
+        ops.append(op)
+        loops.append("self" if op[0] == "remove" and rng.random() < 0.5 else None)
+        step(op)
+    nvals = rng.choice([1, 2, fresh])
+    vals = [rng.randrange(nvals) for _ in range(fresh + 1)]
+    out = {"family": case["family"], "vals": vals, "ops": ops, "loops": loops}
+    if case.get("ctor_links"):
+        out["ctor_links"] = True
+    return out
+
+
 # ------------------------------------------------------------------ chunks
 def corpus_cases():
     d = Path(__file__).resolve().parent.parent.parent / "corpus" / PROP
@@ -497,6 +581,10 @@ def cases_of(chunk):
                     # three calls in four made from inside a loop over the container (at its element #0, #1 or #2)
                     loops = [None if (i + j) % 4 == 3 else (i // 5 + j) % 3 for j in range(len(h))]
                     yield {"family": chunk["family"], "vals": [0] * nid if i % 2 else list(range(nid)), "ops": h, "loops": loops}
+                if i % 3 == 1 and any(op[0] == "remove" for op in h):
+                    # every removal made when a loop over the container reaches the member (consecutive ones: one loop)
+                    loops = ["self" if op[0] == "remove" else (None if (i + j) % 2 else j % 3) for j, op in enumerate(h)]
+                    yield {"family": chunk["family"], "vals": [0] * nid if i % 2 else list(range(nid)), "ops": h, "loops": loops}
     elif k == "random":
         rng = random.Random(chunk["seed"])
         for _ in range(chunk["n"]):
@@ -506,6 +594,10 @@ def cases_of(chunk):
             if len(c["ops"]) <= 14 and rng.random() < 0.5:
                 c["loops"] = [rng.randrange(0, 5) if rng.random() < 0.6 else None for _ in c["ops"]]
             yield c
+            # a stream of its own (the draws above stay what they were)
+            rng2 = random.Random("filter-loop " + json.dumps(c, sort_keys=True))
+            if rng2.random() < 0.25:
+                yield filter_loop_variant(c, rng2)
 
 
 def shrinks(case):
@@ -524,7 +616,7 @@ def shrinks(case):
             if t is not None:
                 yield {**case, "loops": lp[:i] + [None] + lp[i + 1 :]}
         for i, t in enumerate(lp):
-            if t:
+            if isinstance(t, int) and t:
                 yield {**case, "loops": lp[:i] + [t - 1] + lp[i + 1 :]}
     # make values distinct
     if len(set(case["vals"])) < len(case["vals"]):
